@@ -97,6 +97,11 @@ def _has_live_extras(case, j, tbl=None):
     return False
 
 
+def _stale_none(state):
+    """a field that is recorded in _none_fields while __dict__ still holds a value for it"""
+    return bool(set(state.get("nones") or []) & {k for k, _ in state["o"][1]})
+
+
 def judge(case, impl, model):
     msg = P.correspondence(case, impl, model)
     fails = []
@@ -104,7 +109,8 @@ def judge(case, impl, model):
         return msg, fails
     n = len(impl["states"])
     eq, ne, heq = impl["eq"], impl["ne"], impl["heq"]
-    show = lambda i: json.dumps(impl["states"][i]["o"])[:220]
+    show = lambda i: json.dumps(impl["states"][i]["o"])[:220] + (
+        f" _none_fields={impl['states'][i]['nones']}" if impl["states"][i].get("nones") else "")
     for i in range(n):
         if not eq[i][i]:
             fails.append(("eq-not-reflexive", f"x == x is False for {show(i)}"))
@@ -117,6 +123,8 @@ def judge(case, impl, model):
                 fails.append(("ne-not-negation", f"a != b and a == b are both {eq[i][j]}: a={show(i)} b={show(j)}"))
             if eq[i][j] != impl["fieldwise"][i][j]:
                 which = "eq-but-fields-differ" if eq[i][j] else "fields-equal-but-ne"
+                if not eq[i][j] and (_stale_none(impl["states"][i]) or _stale_none(impl["states"][j])):
+                    which = "none-recorded-over-stored-value"
                 fails.append((f"eq-vs-readback:{which}", f"a == b is {eq[i][j]} but field-wise equality of the values read back is "
                               f"{impl['fieldwise'][i][j]}: a={show(i)} b={show(j)}"))
             if i == j:
